@@ -1,9 +1,11 @@
 import Dnp3.Model.Measurement
 /-!
 Helper lemmas for C10 (`Dnp3.Props.C10`): exact comparison / truncation of dyadic values,
-the saturation law of `toInt`, the common-time round trip.
+the closed form `toInt` of the generated integer-conversion rows and its saturation law, the
+common-time round trip.
 -/
 namespace Dnp3.Meas
+open Dnp3.Gen.Conv
 set_option linter.unusedVariables false
 
 /-! ### `magGt` / `magTrunc` are exact: they are the integer statements of `m·2^e > K` and `⌊m·2^e⌋` -/
@@ -55,18 +57,83 @@ theorem le_magTrunc_of_gt (m : Nat) (e : Int) (K : Nat) (h : magGt m e K = true)
 def truncInt (neg : Bool) (m : Nat) (e : Int) : Int :=
   if neg then -((magTrunc m e : Nat) : Int) else ((magTrunc m e : Nat) : Int)
 
-/-- the value lies outside `[-N, P]` (exact) -/
+/-- the value is not representable in `[-N, P]`: NaN, ±infinity, or a finite value whose exact
+value lies outside the range -/
 def outOfRange (N P : Nat) : AVal → Bool
-  | .nan => false
+  | .nan => true
   | .inf _ => true
   | .fin neg m e => (neg && magGt m e N) || (!neg && magGt m e P)
 
-/-- clamp of the truncation into `[-N, P]` -/
+/-- clamp of the truncation into `[-N, P]`; 0 for NaN -/
 def clampTrunc (N P : Nat) : AVal → Int
   | .nan => 0
   | .inf true => -(N : Int)
   | .inf false => (P : Int)
   | .fin neg m e => max (-(N : Int)) (min (P : Int) (truncInt neg m e))
+
+/-- closed form of `AnalogConversions::to_i16 / to_i32` with `MIN = -N`, `MAX = P`:
+`if v.is_nan() {(flags|OVER_RANGE, 0)} else if v < MIN {(flags|OVER_RANGE, MIN)}
+ else if v > MAX {(flags|OVER_RANGE, MAX)} else {(flags, v as iN)}`.
+`toI16_eq_toInt` / `toI32_eq_toInt` prove that this is what the GENERATED rows compute. -/
+def toInt (N P : Nat) (v : AVal) (flags : Nat) : Nat × Int :=
+  match v with
+  | .nan => (setOverRange flags, 0)
+  | .inf true => (setOverRange flags, -(N : Int))
+  | .inf false => (setOverRange flags, (P : Int))
+  | .fin neg m e =>
+    if neg && magGt m e N then (setOverRange flags, -(N : Int))
+    else if !neg && magGt m e P then (setOverRange flags, (P : Int))
+    else (flags, truncInt neg m e)
+
+/-- the row shape of an integer conversion in the patched source: NaN first, then the two bounds -/
+def intRow (c : Conv) (t : WTy) : AConv :=
+  ⟨c, t, [⟨.isNan, true, .zero⟩, ⟨.ltMin, true, .min⟩, ⟨.gtMax, true, .max⟩], false, .cast⟩
+
+/-- Rust's saturating cast agrees with plain truncation once both bound guards have failed -/
+theorem castInt_in_range (N P : Nat) (neg : Bool) (m : Nat) (e : Int)
+    (h : (if neg then magGt m e N else magGt m e P) = false) :
+    castInt N P (.fin neg m e) = truncInt neg m e := by
+  cases neg
+  · have := magTrunc_le_of_not_gt m e P (by simpa using h)
+    have h' : ¬ (magTrunc m e > P) := by omega
+    simp [castInt, truncInt, h']
+  · have := magTrunc_le_of_not_gt m e N (by simpa using h)
+    have h' : ¬ (magTrunc m e > N) := by omega
+    simp [castInt, truncInt, h']
+
+/-- interpreting a row of that shape gives the closed form -/
+theorem runConv_intRow (N P : Nat) (c : Conv) (t : WTy) (v : AVal) (flags : Nat) :
+    runConv (intRow c t) (fun g => guardHolds N P g v) (retInt N P v) flags = toInt N P v flags := by
+  cases v with
+  | nan => rfl
+  | inf neg => cases neg <;> rfl
+  | fin neg m e =>
+    cases neg
+    · by_cases h : magGt m e P = true
+      · simp [runConv, intRow, evalConv, guardHolds, retInt, toInt, h]
+      · have h' : magGt m e P = false := by simpa using h
+        have hc := castInt_in_range N P false m e (by simpa using h')
+        simp [runConv, intRow, evalConv, guardHolds, retInt, toInt, h', hc]
+    · by_cases h : magGt m e N = true
+      · simp [runConv, intRow, evalConv, guardHolds, retInt, toInt, h]
+      · have h' : magGt m e N = false := by simpa using h
+        have hc := castInt_in_range N P true m e (by simpa using h')
+        simp [runConv, intRow, evalConv, guardHolds, retInt, toInt, h', hc]
+
+/-- the generated rows of `to_i16` / `to_i32` have exactly that shape (fails to compile when the
+source of either method changes shape, e.g. loses its NaN branch) -/
+theorem convRow_int :
+    convRow .toI16 = some (intRow .toI16 .i16) ∧ convRow .toI32 = some (intRow .toI32 .i32) := by
+  decide
+
+theorem toI16_eq_toInt (v : AVal) (flags : Nat) : toI16 v flags = toInt 32768 32767 v flags := by
+  simp only [toI16, convInt, convRow_int.1]
+  exact runConv_intRow 32768 32767 .toI16 .i16 v flags
+
+theorem toI32_eq_toInt (v : AVal) (flags : Nat) :
+    toI32 v flags = toInt 2147483648 2147483647 v flags := by
+  simp only [toI32, convInt, convRow_int.2]
+  exact runConv_intRow 2147483648 2147483647 .toI32 .i32 v flags
 
 theorem toInt_fin (N P : Nat) (hNP : P ≤ N) (neg : Bool) (m : Nat) (e : Int) (flags : Nat) :
     toInt N P (.fin neg m e) flags =
@@ -95,13 +162,54 @@ theorem toInt_fin (N P : Nat) (hNP : P ≤ N) (neg : Bool) (m : Nat) (e : Int) (
         Bool.false_and, Bool.or_false, Bool.false_eq_true, if_false, if_true]
       congr 1; omega
 
-theorem toInt_nonNaN (N P : Nat) (hNP : P ≤ N) (v : AVal) (hv : v ≠ .nan) (flags : Nat) :
+/-- the saturation law for EVERY value, NaN included (NaN: 0 and OVER_RANGE) -/
+theorem toInt_spec (N P : Nat) (hNP : P ≤ N) (v : AVal) (flags : Nat) :
     toInt N P v flags =
       (if outOfRange N P v then setOverRange flags else flags, clampTrunc N P v) := by
   cases v with
-  | nan => exact absurd rfl hv
+  | nan => rfl
   | inf neg => cases neg <;> rfl
   | fin neg m e => exact toInt_fin N P hNP neg m e flags
+
+/-- the exact value of `.fin _ m e` is the integer of magnitude `k` -/
+def isInteger (m : Nat) (e : Int) (k : Nat) : Prop :=
+  if 0 ≤ e then k = m * 2 ^ e.toNat else m = k * 2 ^ (-e).toNat
+
+theorem magTrunc_of_isInteger (m : Nat) (e : Int) (k : Nat) (h : isInteger m e k) :
+    magTrunc m e = k := by
+  unfold isInteger at h
+  by_cases he : 0 ≤ e
+  · simp only [he, if_true] at h; simp [magTrunc, he, h]
+  · simp only [he, if_false] at h
+    have hd : 0 < 2 ^ (-e).toNat := Nat.two_pow_pos _
+    simp only [magTrunc, he, if_false, h]
+    exact Nat.mul_div_cancel k hd
+
+theorem magGt_of_isInteger (m : Nat) (e : Int) (k K : Nat) (h : isInteger m e k) (hk : k ≤ K) :
+    magGt m e K = false := by
+  unfold isInteger at h
+  by_cases he : 0 ≤ e
+  · simp only [he, if_true] at h
+    have : ¬ (K < m * 2 ^ e.toNat) := by omega
+    simp [magGt, he, this]
+  · simp only [he, if_false] at h
+    have hd : 0 < 2 ^ (-e).toNat := Nat.two_pow_pos _
+    have : ¬ (K * 2 ^ (-e).toNat < m) := by
+      rw [h]; intro hh
+      have := Nat.lt_of_mul_lt_mul_right hh
+      omega
+    simp [magGt, he, this]
+
+/-- a value that IS an integer of the range arrives unchanged, flags unchanged -/
+theorem toInt_integer (N P : Nat) (neg : Bool) (m : Nat) (e : Int) (k : Nat) (flags : Nat)
+    (hk : isInteger m e k) (hin : if neg then k ≤ N else k ≤ P) :
+    toInt N P (.fin neg m e) flags = (flags, if neg then -((k : Nat) : Int) else ((k : Nat) : Int)) := by
+  have ht := magTrunc_of_isInteger m e k hk
+  cases neg
+  · have hg := magGt_of_isInteger m e k P hk (by simpa using hin)
+    simp [toInt, truncInt, hg, ht]
+  · have hg := magGt_of_isInteger m e k N hk (by simpa using hin)
+    simp [toInt, truncInt, hg, ht]
 
 /-! ### common time of occurrence -/
 
